@@ -12,6 +12,7 @@ import TwSpec
 import TwProofs.Lemmas.EvalStep
 import TwProofs.Lemmas.EvalMono
 import TwProofs.Lemmas.TextIf
+import TwProofs.Lemmas.TextIfChain
 
 namespace Tw.C02
 open Tw
@@ -170,6 +171,48 @@ example : evaluateStringPure [] (b "a @if(ok )yes@else no@end m @if( n)N@end{{--
   rw [h1, h2] at h
   exact h
 end example_if
+
+/-! ### the whole chain, from the source bytes -/
+
+/-- **`@if … @elseif … [@else …] @end` from the source bytes**: for every template of text runs and
+    chains `@if(c0) t0 @elseif(c1) t1 … @elseif(cn) tn [@else te] @end` (any white space around the
+    names, texts without "{", "@" and backslash, the `@else` text not beginning with "if") and every
+    data map, each chain renders exactly the text of the FIRST branch whose name is truthy — the
+    `@else` text when none is, nothing when there is no `@else` — and the text before, between and
+    after the chains is unaffected.  Only the names up to the first truthy one have to be bound
+    (`kbound`): the conditions of the later branches are never evaluated, so they may even be
+    undefined.  Lexer (`dirScan_elseif`: the case in which `@else` is potentially longer,
+    `lex_cond_header`, `lex_vplain`, `chain_ok`), parser (`parse_tail_alts`, `parse_chain_stmt`) and
+    evaluator (`evalElseIfs_alts`, `chain_renders`) composed. -/
+theorem elseif_chain_renders_the_first_truthy_branch_from_source (custom : List ((VType × Bytes) × Nat)) (items : List KItem)
+    (hok : KItemsOK items) (data : List (Bytes × GoVal)) (env : Env) (henv : envFromMap data = .ok env)
+    (hb : kbound env items) (hsize : kneed items ≤ evalFuel) :
+    evaluateStringPure custom (chainTplSrc items) data = .ok (krender env items) := by
+  obtain ⟨prog, hp, hm⟩ := parse_kitems items hok
+  unfold evaluateStringPure envOrFail
+  rw [hp]
+  simp only [henv]
+  rw [evalProg_kitems _ env prog.stmts items hm hb evalFuel [] hsize]
+  simp [resToOut]
+
+section example_chain
+private def exChain : Chain := { g1 := [], c := b "a", g2 := [], t := b "A", alts := [⟨[32], b "bb", [32], b "B"⟩, ⟨[], b "nosuch", [], b "C"⟩], els := some (b " none") }
+private def exK : List KItem := [.text [.plain (b "x ")], .chain exChain, .text [.plain (b " y")]]
+
+example : chainTplSrc exK = b "x @if(a)A@elseif( bb )B@elseif(nosuch)C@else none@end y" := by decide
+example : KItemsOK exK := by decide
+
+/-- a falsy, bb truthy: the second branch; the third condition names an undefined variable and is never looked at -/
+example : evaluateStringPure [] (b "x @if(a)A@elseif( bb )B@elseif(nosuch)C@else none@end y") [(b "a", .int 0), (b "bb", .str (b "s"))] = .ok (b "x B y") := by
+  have h := elseif_chain_renders_the_first_truthy_branch_from_source [] exK (by decide) [(b "a", .int 0), (b "bb", .str (b "s"))]
+    [[(b "a", .int 0), (b "bb", .str (b "s"))]] (by rfl) (by
+      refine ⟨⟨by decide, fun _ => ⟨by decide, fun h => ?_⟩⟩, trivial⟩
+      exact absurd h (by decide)) (by decide)
+  have h1 : chainTplSrc exK = b "x @if(a)A@elseif( bb )B@elseif(nosuch)C@else none@end y" := by decide
+  have h2 : krender [[(b "a", .int 0), (b "bb", .str (b "s"))]] exK = b "x B y" := by decide
+  rw [h1, h2] at h
+  exact h
+end example_chain
 
 /-! ### non-vacuity and an end-to-end instance -/
 
